@@ -35,7 +35,7 @@ CHECKS = {
             'wrapper loop ranges were wrong for those and were repaired, a6b8f25; the generated wrapper C follows the .pyx extents through '
             'mc/pyxsync.py because Cython is not available); drivers over several steps with every parameter family changing in time against the '
             'exact one-step operator applied step by step. Lines on which elimination without pivoting has a (near-)zero pivot get a proportionally wider tolerance '
-            'and are counted in evidence. delj-on references are float (exp); quick tier thins the parameter lattice (cap reported).',
+            'and are counted in evidence. delj-on references are float (exp); quick tier thins the parameter lattice (cap reported). Waves 10-12: drivers on transposed views, frozen patterns through both drivers, epochs in absolute time, a breeding ratio changing in time.',
             'DESIGN.md §3 C02'),
     'C03': ('model_checking',
             'exhaustive enumeration of all programs of a dadi-program grammar up to a length bound, each executed at 7 reference-size factors with every intermediate density compared; superposition on every integration op x unit density',
@@ -46,7 +46,7 @@ CHECKS = {
             'the spectrum must be unchanged. Superposition in (phi, theta0) is checked on every integration op of the alphabet, every frozen and '
             'nomut pattern, for every unit density against a dense one, 4 coefficient pairs x 9 theta pairs.',
             'Program alphabet is finite (mc/programs.py): 4 equilibria, 4-5 integration ops per dimension, one proportion vector per admixture op; '
-            'quick tier bounds program length at 3 (1-3 populations) / 2 (4-5 populations), thorough 4 / 3. Added after the seeded waves: the equilibrium density over the whole stated (gamma, h, nu) domain and on interior grids at every factor, proportional to theta0 entry by entry; the caller\'s density is passed as it is and compared afterwards; Fortran-ordered densities; long epochs at magnitudes 1e-8.',
+            'quick tier bounds program length at 3 (1-3 populations) / 2 (4-5 populations), thorough 4 / 3. Added after the seeded waves: the equilibrium density over the whole stated (gamma, h, nu) domain and on interior grids at every factor, proportional to theta0 entry by entry; the caller\'s density is passed as it is and compared afterwards; Fortran-ordered densities; long epochs at magnitudes 1e-8. Waves 7-12: density manipulations are linear maps (signed and tiny coefficients); the X-chromosome integrator and equilibrium; the enumeration repeated with use_delj_trick on (binary factors only); zero-length and 8e-9 epochs.',
             'DESIGN.md §3 C03'),
     'C04': ('model_checking',
             'exhaustive enumeration of frozen/nomut patterns x subsets of populations x parameter lattice x driver kind, each on every unit density, with a kernel-level replay of the driver loop and exact conservation identities as oracle',
@@ -68,7 +68,7 @@ CHECKS = {
             'sample-then-project equals sample, marginalise-before equals marginalise-after, and sampling probabilities sum to one, on every unit '
             'density; grids overshooting [0,1] by 1e-16 included.',
             'Sum-to-one tolerance for inbreeding is conditioning-aware (betaln cancellation grows like eps/F, measured); multi-D semi-analytic '
-            'paths require one grid for all axes; 5-D has only the semi-analytic path and inbreeding only 1-3 D in the implementation.',
+            'paths require one grid for all axes; 5-D has only the semi-analytic path and inbreeding only 1-3 D in the implementation. Waves 9-11: ascertainment under inbreeding against the weighted density; negative densities through the direct paths.',
             'DESIGN.md §3 C05'),
     'C06': ('model_checking',
             'explicit-state BFS from every unit density over split/admix/pulse/remove/filter/reorder with proportions on simplex lattices, stepping an exact Fraction density alongside the real PhiManip call',
@@ -79,7 +79,7 @@ CHECKS = {
             'pure split is a diagonal copy, input untouched) are evaluated on each. Acceptance of every simplex vector and rejection of every '
             'vector summing to 1+delta is enumerated for every function; memory layouts for remove/reorder.',
             'Same grid on every axis (the API takes one xx); phi_1D_to_2D conserves interior points only, as documented; quick tier bounds depth '
-            '(2 from 1-D/2-D, 1 from 3-D..5-D) and uses the step-1/2 lattice for 3-4 source pulses in 4-D/5-D (cap reported). Added after the seeded waves: a different grid, and a different number of grid points, on every axis for every pulse / constructor / removal; all of them on non-contiguous densities.',
+            '(2 from 1-D/2-D, 1 from 3-D..5-D) and uses the step-1/2 lattice for 3-4 source pulses in 4-D/5-D (cap reported). Added after the seeded waves: a different grid, and a different number of grid points, on every axis for every pulse / constructor / removal; all of them on non-contiguous densities. Wave 12: every accepted proportion vector gives a finite density.',
             'DESIGN.md §3 C06'),
     'C07': ('model_checking',
             'exhaustive enumeration of (k, all k! grid orderings, degree basis, mode, result type, call style) against an exact Fraction Lagrange oracle',
@@ -97,7 +97,7 @@ CHECKS = {
             'mask for shapes up to 4-D and every target vector; a BFS over project/fold/unfold merges states by exact reference value and '
             'compares the implementation along every path into a merged state (two-stage = one-stage, axis order, folded projection).',
             'Linearity / OR-homomorphy are re-checked on pairs; 41<=n<=200 only on the m lattice {1,2,n/2,n-1,n}; 4-D shapes limited to '
-            '(2,3,2,3),(3,2,5,2); relative tolerance 1e-12 (n<=40) / 1e-10 per weight.',
+            '(2,3,2,3),(3,2,5,2); relative tolerance 1e-12 (n<=40) / 1e-10 per weight. Waves 9-11: signed spectra; in-place changes between two projections; data dictionaries with corners kept; upward projection has no weight; low-pass subsampling under every answer, mirror symmetry of its matrix.',
             'DESIGN.md §3 C08'),
     'C09': ('model_checking',
             'operator extraction on every unit array / singleton and pair mask for all shapes {1,2,3}^d (d<=5) + BFS over fold/unfold/mirror + full operator x operand x folding product, against an explicit re-indexing reference',
@@ -114,7 +114,7 @@ CHECKS = {
             'unlabelled, folded and unfolded, and compared entry by entry (data, mask, labels, folded flag, totals, input untouched) with a '
             'reference that re-indexes every entry; a BFS of depth 2-3 adds project and fold and compares the implementation along commuting paths.',
             'Only corner masks (interior masks are documented as ill-defined for marginalisation); quick tier thins the unit basis in 5-D/6-D '
-            '(reported as a cap; thorough is complete); 6-D permutations thinned to 31 of 720.',
+            '(reported as a cap; thorough is complete); 6-D permutations thinned to 31 of 720. Waves 7-12: folded scrambling against unfold-scramble-fold; more than 1000 pooled chromosomes; labels out of alphabetical order; axes counted from the end.',
             'DESIGN.md §3 C10'),
     'C11': ('model_checking',
             'exhaustive enumeration of all mask-pattern pairs and value-alphabet assignments against a direct lgamma loop',
@@ -123,7 +123,7 @@ CHECKS = {
             'optimally_scaled_sfs and both residuals, and compared with a direct loop; maximality over rescaling, scale invariance and Gibbs '
             'optimality of model=c*data are checked on every member.',
             'model==0 with data>0 (documented as ignored with a warning) is outside the space; spectra follow the corner-masked convention; '
-            'tolerance 1e-11 relative to the magnitude of the terms.',
+            'tolerance 1e-11 relative to the magnitude of the terms. Waves 7-11: one argument a plain array; unmasked corners; in-place changes of the model between evaluations; pre-scaled models; non-positive model cells in the scaling.',
             'DESIGN.md §3 C11'),
     'C12': ('model_checking',
             'monitored exhaustive product optimiser x model x every proper fixed-parameter subset x starting-point lattice x bound box x multinom, with every model evaluation recorded as a transition; exhaustive subsets for parameter projection; enumerated environment answers for perturb_params',
@@ -154,7 +154,7 @@ CHECKS = {
             'writer <-> Spectrum reader, pre-1.3 format), then compared field by field: shape, values bitwise after formatting at the written '
             'precision (incl. -0.0, denormals, nan, +-inf), mask, folded flag, labels, comments; pickle protocols 2-5, copy and deepcopy likewise; '
             'non-contiguous views (reorder_pops transposes, Fortran order, strided and reversed slices) are included.',
-            'Labels without double quotes/newlines, comments without newlines (not representable in the format); scratch files under /verif/.scratch.',
+            'Labels without double quotes/newlines, comments without newlines (not representable in the format); scratch files under /verif/.scratch. Waves 7-11: masks assigned after folding; labels with blanks and tabs; the tofile alias; integer-valued data with huge entries; unmasked spectra through the generic writer.',
             'DESIGN.md §3 C14'),
     'C15': ('model_checking',
             'exhaustive enumeration of the model catalogue (discovered by introspection) x per-model checks (arity, parameter lattice with per-parameter corners, zero-length epochs, name-derived nesting rules, label-swap on a time-step ladder) and of an explicit 83-edge nesting graph x lattice points',
@@ -199,7 +199,7 @@ CHECKS = {
             'exterior lattices, and compiled pdfs with reference formulas.',
             'Scheduling points only at Manager-proxy operations (the workers share nothing else; a free-running pass with real processes is '
             'included); 2-D tail masses use adaptive quadrature at epsrel 1e-3 in the implementation and are compared at 2e-3; total weight ~ 1 '
-            'asserted only on fine gamma grids. Added after the seeded waves: split-job parts built by a worker pool under every schedule; duplicates differing by 1e-7; 2-3 point masses; near-neutral bivariate DFEs; exterior_int off in mixtures.',
+            'asserted only on fine gamma grids. Added after the seeded waves: split-job parts built by a worker pool under every schedule; duplicates differing by 1e-7; 2-3 point masses; near-neutral bivariate DFEs; exterior_int off in mixtures. Waves 7-9: compiled bivariate densities on every rectangular pair of lengths; broad exchangeable DFEs with corner mass.',
             'DESIGN.md §3 C17'),
     'C18': ('model_checking',
             'exhaustive enumeration of genotype partitions against brute-force enumeration of all genotype vectors and the exact (Fraction) sampling law; lattice enumeration of matrices and of the full correction on every unit model spectrum',
@@ -222,7 +222,7 @@ CHECKS = {
             'scale-free Poisson models, multinom and log variants) with the error required to contract at second order in eps; all 24 orderings '
             'of 4 bootstraps; sum_chi2_ppf on 8 input forms x 5 weight vectors; every sequence of <=2 (thorough 3) calls from a 10-symbol '
             'alphabet sharing Godambe.cache must reproduce the fresh-state value of each call.',
-            'Models with an overall scale parameter are degenerate under multinom and excluded there; permutation tolerance scales with cond(J). Added after the seeded waves: every nested-parameter set for LRT_adjust; per-bootstrap theta (plain and log parameters, LRT); user-masked data entries; array-valued p0 untouched.',
+            'Models with an overall scale parameter are degenerate under multinom and excluded there; permutation tolerance scales with cond(J). Added after the seeded waves: every nested-parameter set for LRT_adjust; per-bootstrap theta (plain and log parameters, LRT); user-masked data entries; array-valued p0 untouched. Waves 7-10: bootstrap sets of different sizes in one history (history-free values from a forked child); two-value forms of the Wald and score statistics; folded and unfolded data in one history.',
             'DESIGN.md §3 C19'),
     'C20': ('model_checking',
             'explicit-state breadth-first search over the module state of the library (all memoisation tables hashed by key and value, global switches, numpy error state) with one real API call per transition, to closure or a reported state cap; layout enumeration per array argument; hash-seed sweep in subprocesses',
